@@ -51,7 +51,7 @@ CHECKS = {
               'at the k-th line event inside the unit; with --skip-failed the run must complete and equal (sequences, '
               'header entries, table rows) the run where those units cleanly produced nothing, be sandwiched by the '
               'fault-free run (attribution by what each unit returned), tally correctly; without the flag it must '
-              'abort without a FASTA. Second fault source: units that fail by themselves under cleavage rules the '
+              'abort without a FASTA. A one-shot TimeoutError absorbed by the retry ladder must leave the other transcripts peptides in place. Second fault source: units that fail by themselves under cleavage rules the '
               'graph code cannot handle. Same for row failures in the four parsers (injected around the conversion, '
               'or rows that fail by themselves).'),
         note=('Faults are Python exceptions at line granularity; absorbed faults are discarded; header entry strings '
@@ -69,13 +69,15 @@ CHECKS = {
         technique=TECH + ' (stateful access histories vs reference model)'),
     'C12': dict(
         engine='index-store', design='4-C12',
-        text=('Hypothesis stateful histories of generateIndex / updateIndex (+-force, symlink) / load / version skew '
-              'on one directory, every operation a fresh invocation sharing only the directory; dictionary model '
+        text=('Hypothesis stateful histories of generateIndex / updateIndex (+-force, symlink) / load / version skew / '
+              'kill at the k-th durable-state event of generateIndex --force or updateIndex (incl. torn writes; only the '
+              'directory copy taken at that instant survives) on one directory, every operation a fresh invocation sharing only the directory; dictionary model '
               'params -> pool computed on the fly; after every operation every registered pool and all reference '
               'data are reloaded and compared.'),
-        note=('Crash atomicity of the directory is not demanded (C12 is stated over invocation sequences); version '
+        note=('Crash atomicity / recoverability of the directory is not demanded (C12 is stated over invocation '
+              'sequences): after a killed or failed invocation only loads that succeed are judged (must be faithful); version '
               'skew includes the metadata layout of pre-1.3.0 releases; proteomes contain X / * proteins.'),
-        technique=TECH + ' (stateful invocation histories over a durable directory vs dictionary model)'),
+        technique=TECH + ' (stateful invocation histories with crash points over a durable directory vs dictionary model)'),
     'C13': dict(
         engine='gvf-store', design='4-C13',
         text=('Hypothesis stateful histories over GVF files + .idx side-cars + shared seekable handles: record round '
@@ -89,7 +91,7 @@ CHECKS = {
         engine='decoy', design='4-C20',
         text=('Seeded search over option sets: same seed => byte-identical output under different prior global-RNG '
               'states and under another PYTHONHASHSEED in a fresh interpreter; permuted arrival order of targets => '
-              'same record set and arrangement; an intervening call with other options must not change the next '
+              'same record set and arrangement; an intervening call with other options, or on other targets (the first run decoys), must not change the next '
               'identical call; structural monitors (targets unchanged, one decoy per target, permutation of residues, '
               'termini and listed residues fixed). Decides the reproducibility/order clause and the oracle-free '
               'structural clauses.'),
